@@ -568,6 +568,16 @@ func cliCases(r *mon.Run, w *world, origPath string) {
 			"only.age": string(refage.BuildFile(fk, []refage.Stanza{{Type: "x", Args: []string{"a"}, Body: make([]byte, 32)}, {Type: "b", Args: nil, Body: make([]byte, 16)}}, make([]byte, 16), []byte("cli")))}},
 	}
 	cases = append(noMatch, cases...)
+	// an age file in the IDENTITY position (-i) that is not passphrase-protected
+	// and whose header names plugin-looking stanza types: still only a header
+	idFile := string(refage.BuildFile(fk, []refage.Stanza{{Type: "x", Args: []string{"a"}, Body: make([]byte, 32)}, {Type: "zz", Args: nil, Body: make([]byte, 16)}}, make([]byte, 16), []byte(keys.NewX("X1").SecretStr+"\n")))
+	idCases := []cc{
+		{"d-identity-file-is-an-age-file:alone", []string{"-d", "-i", "ids.age", "-o", "out.txt", "x.age"}, "", map[string]string{"ids.age": idFile}},
+		{"d-identity-file-is-an-age-file:before-the-key", []string{"-d", "-i", "ids.age", "-i", "key.txt", "-o", "out.txt", "x.age"}, "", map[string]string{"ids.age": idFile, "key.txt": keys.NewX("X1").SecretStr + "\n"}},
+		{"d-identity-file-is-an-age-file:armored", []string{"-d", "-i", "ids.age", "-i", "other.txt", "-o", "out.txt", "x.age"}, "", map[string]string{"ids.age": string(refage.Armor([]byte(idFile), "\n")), "other.txt": keys.NewX("X2").SecretStr + "\n"}},
+		{"e-identity-file-is-an-age-file", []string{"-e", "-i", "ids.age", "-o", "out.age", in}, "", map[string]string{"ids.age": idFile}},
+	}
+	cases = append(idCases, cases...)
 	// several identity flags in one command line: every -j names its own plugin
 	sx, szz := filepath.Join(w.dA, "age-plugin-x"), filepath.Join(w.dA, "age-plugin-zz")
 	otherKey := map[string]string{"other.txt": keys.NewX("X2").SecretStr + "\n", "zz": keys.NewX("X3").SecretStr + "\n", "q9": keys.NewX("X4").SecretStr + "\n"}
@@ -590,8 +600,8 @@ func cliCases(r *mon.Run, w *world, origPath string) {
 	cases = append(multi, cases...)
 
 	severalPlugins(r, w, ageBin, work, path, home)
-	if !r.Thorough() && len(cases) > 107 {
-		cases = cases[:107]
+	if !r.Thorough() && len(cases) > 111 {
+		cases = cases[:111]
 	}
 	for i, c := range cases {
 		os.WriteFile(filepath.Join(work, "x.age"), xfile, 0o600)
